@@ -9,6 +9,10 @@ def T(qc, tc, size=100, qw=8, tw=NP, **kw):
 
 TIERS = {
     "C01": T(1500, 20000),
+    "C02": T(2500, 40000),
+    "C03": T(1500, 25000),
+    "C04": T(2000, 30000),
+    "C05": T(700, 12000),
     "C18": T(2500, 40000),
 }
 
@@ -24,6 +28,15 @@ ASSUMPTIONS = {
         "thread create/join/exit; interleavings inside critical sections are not explored",
         "held on everything explored; never a proof of absence",
     ],
+    "C02": ["fault fragments are constructed to fail the CRC check (a corrupted fragment whose CRC happens to be valid is "
+            "re-perturbed): CRC-valid malformed packets are C12's domain",
+            "fragments never exceed 250 unescaped bytes (longer ones are C12's domain)"],
+    "C03": ["liveness is evaluated at library activations (send returned / uplink message of the node processed), not at "
+            "arbitrary instants: the library has no timer", "expiry compared at the 1 s resolution of time()",
+            "an uplink message is only injected after buffered downlink bytes were flushed (an answer cannot precede its request)"],
+    "C04": ["the harness flushes before injecting a stall notice: the property is about admission, bytes already buffered cannot be recalled",
+            "budget-related obligations use the C03 model"],
+    "C05": ["preemption only at lock operations / sleeps / thread create-join (scheduler-owned), with an explicit preemption list or a seeded random policy"],
     "C01": ["every generated message is accepted for immediate transmission by construction (cumulative worst-case "
             "response budget per node <= 48 bytes); deferred messages are C03/C04",
             "the sequence byte is not compared here (C05)"],
